@@ -19,6 +19,7 @@ from collections import Counter
 from concurrent.futures import ThreadPoolExecutor
 from common import *
 import corpus, families, mutants, tv, fam_c03
+from gast import TextProgram
 
 LEVEL = "model_checking"
 
@@ -337,7 +338,9 @@ def run(tier, rep):
         rep.coverage["selftest_corruptions_rejected"] = dict(kinds)
 
     # ---------------- negative half: one injected type error must be rejected
-    base = [meta[i] for i, _ in accepted if i in meta and not meta[i].get("extra_files") and meta[i].get("welltyped", True)]
+    # (a program given as text has no tree to inject an error into: its `prog` only records what it prints)
+    base = [meta[i] for i, _ in accepted if i in meta and not meta[i].get("extra_files") and meta[i].get("welltyped", True)
+            and not isinstance(meta[i]["prog"], TextProgram)]
     allm = []
     for c in base:
         try:
@@ -452,6 +455,22 @@ def run(tier, rep):
                          "mutant_verdicts": dict(mverd), "mutant_kind_counts": dict(kinds.most_common(40))})
     if mverd.get("typer", 0) < 300:
         raise ToolError("vacuity: fewer than 300 ill-typed variants rejected")
+
+    # ---------------- the unifier itself: every TypeEqual constraint the real solver handed to Typer::unify while it checked the
+    # programs above (accepted or not) and the ill-typed variants (whose refused calls are the interesting ones) is a call of
+    # Unify.tla with the model's verdict and the model's most general result (UnifyTrace.tla).  Design side: TLC checks Unify.tla
+    # itself on every pair of types of a small universe (acyclic store, unified sides, refusal only without solution, most general).
+    import unifytrace
+    ucases = [{"id": "p:" + k, "path": v, "ident": (meta[k]["ident"] if k in meta else k)} for k, v in paths.items()]
+    ucases += [{"id": f"m:{k}", "path": f"{mroot}/m{k}/main.gom", "ident": "mutant:" + mutants.describe(info[k][1])} for k in info]
+    ucases += [{"id": "b:" + q["id"], "text": q["text"], "dir": q["dir"], "ident": "bound:" + q["id"]} for q in breqs]
+    ucases += [{"id": "c:" + q["id"], "text": q["text"], "dir": q["dir"], "ident": "call-form:" + q["id"]} for q in creqs]
+    ust = unifytrace.validate(ucases, rep, "c03", limit_ms=30000)
+    if ust["unify_calls"] < 20000 or ust["refused_calls"] < 50:
+        raise ToolError(f"vacuity: unifier trace too small: {ust}")
+    rep.coverage["unifier_trace_validation"] = ust
+    rep.coverage["unifier_design_model"] = unifytrace.design_model(tier)
+    rep.coverage["traces_validated_against_impl"] += ust["programs"]
     rep.assumptions += [
         "IRTyping.tla is my statement of type consistency for goml's IRs; deviations the code makes on purpose are named in it "
         "(let annotations are not the node's type; the callee of a lifted closure call is annotated with the environment struct; "
